@@ -23,8 +23,8 @@ def create_cache(
 ) -> LRUCache | HybridCache | DiskCache | SimpleCache | None:
     if cache_type is None:
         return None
-    if cache_kwargs is None:
-        cache_kwargs = {}
+    # Never modify the caller's dict: `Pipeline.copy(lazy=True)` passes the same `cache_kwargs` on
+    cache_kwargs = dict(cache_kwargs or {})
     if cache_type == "lru":
         cache_kwargs.setdefault("shared", not lazy)
         return LRUCache(**cache_kwargs)
